@@ -43,6 +43,8 @@ def toEv (l : Line) : Parsed :=
   | "pool.worker" => .ev (.worker a)
   | "pu.sleep" => .ev (.sleep a)
   | "pu.wake" => .ev (.wake a)
+  | "x.wait.enter" => .ev (.waitEnter a)
+  | "x.wait.exit" => .ev (.waitExit a)
   | "x.start" => .ev (.reqCfg a x y)
   | "x.cfg" => .ev (.seenCfg a x y)
   | s => if s.startsWith "x." then .skip else .bad "unknown site"
